@@ -130,6 +130,7 @@ type Result struct {
 	Livelock   bool
 	MainDone   bool // task 1 returned (a deadlock with MainDone is a goroutine leak, not a hang of the caller)
 	MainActive bool // at a step-budget stop: task 1 was runnable (still making progress), not blocked
+	StepsSinceProgress int // at a step-budget stop: steps since the last wake / post / spawn / task end
 	Blocked    []string // description of tasks that never finished
 	Races      []Race
 	HarnessErr string // trouble in the harness itself (exit 2, never a violation)
@@ -161,6 +162,7 @@ type Sim struct {
 	idleQ    time.Duration
 	lastSite int
 	mainDoneAt time.Duration
+	lastProgressStep int
 	epoch    int  // incremented on every progress event (wake, post, spawn, done)
 	progress bool // a progress event happened since the last idle
 }
@@ -334,6 +336,7 @@ func (s *Sim) controller() {
 		if s.progress {
 			s.progress = false
 			s.idleQ = time.Millisecond
+			s.lastProgressStep = res.Steps
 		}
 		s.mu.Unlock()
 		if alive == 0 || fatal {
@@ -376,6 +379,7 @@ func (s *Sim) controller() {
 		}
 		if res.Steps > s.cfg.MaxSteps+s.cfg.FairSteps {
 			res.Livelock = true
+			res.StepsSinceProgress = res.Steps - s.lastProgressStep
 			s.describeBlocked("step budget and fair round-robin tail exhausted")
 			break
 		}
